@@ -50,27 +50,7 @@ type sessSpec struct {
 	Steps []stepSpec `json:"steps"`
 }
 
-func decodeOps(g interface{}) []mach.Op {
-	t, ok := g.([]interface{})
-	if !ok || len(t) < 2 || t[0] != "ops" {
-		return nil
-	}
-	ops := []mach.Op{}
-	for _, x := range t[1].([]interface{}) {
-		o := x.([]interface{})
-		op := mach.Op{Name: o[0].(string)}
-		switch op.Name {
-		case "set":
-			op.K, op.V = o[1].(string), enc.D(o[2])
-		case "del", "emitb":
-			op.K = o[1].(string)
-		case "emit":
-			op.V = enc.D(o[1])
-		}
-		ops = append(ops, op)
-	}
-	return ops
-}
+func decodeOps(g interface{}) []mach.Op { return mach.DecOps(g) }
 
 func runOne(id int, raw []byte, timeout time.Duration) O {
 	var ss sessSpec
